@@ -131,7 +131,7 @@ pub fn schedules(bytes: &[u8], skip: bool, hash: bool, two_dev: bool) -> Vec<Sch
 
 pub fn run() {
 	let cx = ctx();
-	cx.note("rule", json!("8 replays (all regimes; gecko, doubled end, no metadata, two without any frame) x read schedules of an environment-owned reader: full reads, fixed chunk sizes 1..16/32/../4096, EVERY two-piece split (one short read at every byte offset), every single short read (1,2,3 bytes) at every read-call index, one interrupted read call (ErrorKind::Interrupted, then the call is repeated) at every read-call index, and (thorough) every pair of short reads; x skip_frames {off,on}; plus 1..64 trailing bytes after the closing brace; plus hash not requested; plus call histories (a hashed read of the file cut at every 8th offset, which gives up part-way, then the whole file on the same thread); plus .slpp carry-through for 3 compressions. Oracle: hash == \"xxh3:\" + 16 hex digits of the ONE-SHOT xxh3_64 over the bytes through the closing brace (a different code path from the streaming hasher), identical for all schedules and both skip settings. Every case is non-trivial (a distinct schedule)"));
+	cx.note("rule", json!("8 replays (all regimes; gecko, doubled end, no metadata, two without any frame) x read schedules of an environment-owned reader: full reads, fixed chunk sizes 1..16/32/../4096, EVERY two-piece split (one short read at every byte offset), every single short read (1,2,3 bytes) at every read-call index, one interrupted read call (ErrorKind::Interrupted, then the call is repeated) at every read-call index, and (thorough) every pair of short reads; x skip_frames {off,on}; plus 1..64 trailing bytes after the closing brace; plus 600 .. 140,000 bytes of unknown events after Game End inside the raw element; plus hash not requested; plus call histories (a hashed read of the file cut at every 8th offset, which gives up part-way, then the whole file on the same thread); plus .slpp carry-through for 3 compressions. Oracle: hash == \"xxh3:\" + 16 hex digits of the ONE-SHOT xxh3_64 over the bytes through the closing brace (a different code path from the streaming hasher), identical for all schedules and both skip settings. Every case is non-trivial (a distinct schedule)"));
 	cx.note("exhaustive", json!(true));
 	cx.note("assumptions", json!(["xxhash-rust's one-shot xxh3_64 is the reference (trusted base)", "short reads hand out at least one byte (a zero-length read means EOF)"]));
 	let mut jobs: Vec<(Arc<Vec<u8>>, String, P)> = vec![];
@@ -175,6 +175,35 @@ pub fn run() {
 					set_sched(&mut p, &Sched::Full);
 					p.n[0] = 1;
 					jobs.push((bytes.clone(), label.clone(), p));
+				}
+			}
+		}
+	}
+	// long stretches of table-declared unknown events after Game End, inside the raw element (what the reader
+	// has to get past after the last event it understands): lengths around 64 KiB and beyond
+	for v in [(2u8, 0u8), (3, 16)] {
+		let a = base_replay(v, vec![pc(0, false)], 1);
+		let doc = record(&a).doc;
+		for t in [600usize, 65_535, 65_536, 65_537, 70_000, 140_000] {
+			let mut d2 = doc.clone();
+			let mut left = t;
+			let mut code = 0x70u8;
+			while left >= 2 {
+				let size = (left - 1).min(65_535);
+				// leave room for a last event of at least one payload byte
+				let size = if left - 1 - size == 1 { size - 1 } else { size };
+				d2.table.push((code, size as u16));
+				d2.events.push(Ev { code, payload: (0..size).map(|i| fill_byte(Fill::B, code as usize, i)).collect(), tag: Tag::Unknown });
+				left -= 1 + size;
+				code += 1;
+			}
+			let bytes = Arc::new(d2.assemble());
+			// (full reads only: skip_frames jumps to where Game End is when it is the LAST event, C10's domain)
+			for skip in [false] {
+				for s in [Sched::Full, Sched::Chunk(4096), Sched::Chunk(7)] {
+					let mut p = P { skip, hash: true, class: "long-tail", ..Default::default() };
+					set_sched(&mut p, &s);
+					jobs.push((bytes.clone(), format!("v{}.{} with {} bytes of unknown events after Game End", v.0, v.1, t), p));
 				}
 			}
 		}
